@@ -582,6 +582,7 @@ def run(chk):
     _depthsym_rule(chk, prog)
     _writerpure_rule(chk, prog)
     _opmask_rule(chk, prog)
+    _bitsetword_rule(chk, prog)
 
 
 def _asmrange_rule(chk, prog):
@@ -907,3 +908,40 @@ def _opmask_rule(chk, prog):
                                   "is classified as a different opcode (janet_verify: a function with a breakpoint on its last "
                                   "instruction marshals but is rejected when read back)" % x.text()[:50])
     chk.floor(rule, 5, n)
+
+
+def _bitsetword_rule(chk, prog):
+    """A definition's closure bitset has one 32-bit word per 32 slots.  Code that filters slots through it must pick
+    the word by the slot index (bitset[i >> 5]); a mask loaded once and shifted along is right for the first 32 slots
+    and wrong - all zeros - from slot 32 on: captured variables in high slots are written as nil."""
+    rule = "C09-BITSETWORD"
+    chk.rule(rule, "every read of a closure bitset selects the word by the slot index (bitset[i >> 5]), never the first word alone")
+    n = 0
+    for fn in prog.all_funcs():
+        bvars = set()
+        for x in fn.nodes:
+            if x.k in ("vardecl", "asg") and x.kids and strip_casts(x.kids[-1]).k == "mem" and strip_casts(x.kids[-1]).field == "closure_bitset":
+                bvars.add(x.name if x.k == "vardecl" else (x.kids[0].name if x.kids[0].k == "ref" else None))
+        bvars.discard(None)
+        if not bvars:
+            continue
+        for x in fn.nodes:
+            rd = None
+            if x.k == "un" and x.op == "*" and strip_casts(x.kids[0]).k == "ref" and strip_casts(x.kids[0]).name in bvars:
+                rd = ("deref", x)
+            elif x.k == "sub" and strip_casts(x.kids[0]).k == "ref" and strip_casts(x.kids[0]).name in bvars:
+                rd = ("sub", x)
+            if rd is None:
+                continue
+            n += 1
+            chk.instance(rule)
+            chk.analysed(fn)
+            idx_ok = rd[0] == "sub" and any(y.k == "bin" and ((y.op == ">>" and strip_casts(y.kids[1]).v == 5) or (y.op == "/" and strip_casts(y.kids[1]).v == 32))
+                                            for y in x.kids[1].walk())
+            if idx_ok:
+                chk.ok(rule, "%s: `%s`" % (fn.name, x.text()[:40]))
+            else:
+                chk.violation(rule, fn.tu.name, fn.name, "first-word", x.loc,
+                              "`%s` reads the closure bitset without selecting the word for the slot at hand: slots 32 and up are "
+                              "filtered with the wrong bits, and a captured variable there is dropped from the copied environment" % x.text()[:40])
+    chk.floor(rule, 2, n)
